@@ -89,6 +89,10 @@ pub struct SessionSpec {
     pub salt: [u8; 32],
     /// which shard cache directory (index) this session uses
     pub cache_idx: usize,
+    /// reach the shard cache through another path (a symlink to the same directory): the process-wide
+    /// manager cache is keyed by path, so this session gets its own ShardFileManager over the shared
+    /// directory, as a second process would
+    pub cache_alias: Option<usize>,
 }
 
 pub struct FileOutcome {
@@ -119,12 +123,30 @@ impl Dirs {
     pub fn cache(&self, i: usize) -> PathBuf {
         self.root.join(format!("shard-cache-{i}"))
     }
+    pub fn cache_via(&self, i: usize, alias: Option<usize>) -> PathBuf {
+        match alias {
+            None => self.cache(i),
+            Some(a) => {
+                let real = self.cache(i);
+                let _ = std::fs::create_dir_all(&real);
+                let link = self.root.join(format!("cache-{i}-alias-{a}"));
+                if std::fs::symlink_metadata(&link).is_err() {
+                    let _ = std::os::unix::fs::symlink(&real, &link);
+                }
+                link
+            },
+        }
+    }
     pub fn session_dir(&self) -> PathBuf {
         self.root.join("shard-session")
     }
 }
 
 pub fn make_config(d: &Dirs, cache_idx: usize, salt: [u8; 32], global: bool) -> Arc<TranslatorConfig> {
+    make_config_alias(d, cache_idx, None, salt, global)
+}
+
+pub fn make_config_alias(d: &Dirs, cache_idx: usize, alias: Option<usize>, salt: [u8; 32], global: bool) -> Arc<TranslatorConfig> {
     Arc::new(TranslatorConfig {
         data_config: DataConfig {
             endpoint: Endpoint::FileSystem(d.store()),
@@ -139,7 +161,7 @@ pub fn make_config(d: &Dirs, cache_idx: usize, salt: [u8; 32], global: bool) -> 
         },
         shard_config: ShardConfig {
             prefix: "default-merkledb".into(),
-            cache_directory: d.cache(cache_idx),
+            cache_directory: d.cache_via(cache_idx, alias),
             session_directory: d.session_dir(),
             global_dedup_policy: if global { GlobalDedupPolicy::Always } else { GlobalDedupPolicy::Never },
             repo_salt: salt,
@@ -160,8 +182,8 @@ pub fn run_session(d: &Dirs, spec: &SessionSpec, plan: Plan, policy: ErrPolicy) 
     let out = {
         let log = log.clone();
         let d_store = d.store();
-        let cache_dir = d.cache(spec.cache_idx);
-        let config = make_config(d, spec.cache_idx, spec.salt, spec.fresh_cache_global_dedup);
+        let cache_dir = d.cache_via(spec.cache_idx, spec.cache_alias);
+        let config = make_config_alias(d, spec.cache_idx, spec.cache_alias, spec.salt, spec.fresh_cache_global_dedup);
         let spec = spec.clone();
         let handle = rt.handle().clone();
         let fut = async move {
@@ -971,6 +993,8 @@ pub fn gen_history(rng: &mut Rng, l: &Limits, o: &GenOpts) -> Vec<SessionSpec> {
             delay_seed: if rng.chance(1, 2) { Some(rng.next_u64()) } else { None },
             salt,
             cache_idx,
+            // "another process": a later session of the shared cache through its own manager instance
+            cache_alias: if !fresh && si > 0 && rng.chance(1, 4) { Some(si) } else { None },
         });
     }
     sessions
@@ -978,7 +1002,7 @@ pub fn gen_history(rng: &mut Rng, l: &Limits, o: &GenOpts) -> Vec<SessionSpec> {
 
 pub fn session_json(s: &SessionSpec) -> Value {
     json!({
-        "workers": s.workers, "concurrent": s.concurrent, "global_dedup_fresh_cache": s.fresh_cache_global_dedup, "delays": s.delay_seed.is_some(),
+        "workers": s.workers, "concurrent": s.concurrent, "own_manager_instance_via_alias_path": s.cache_alias.is_some(), "global_dedup_fresh_cache": s.fresh_cache_global_dedup, "delays": s.delay_seed.is_some(),
         "salt_zero": s.salt == [0u8; 32],
         "files": s.files.iter().map(|f| json!({"len": f.bytes.len(), "cut_kind": f.cut_kind, "recipe": f.recipe.iter().map(|x| x.to_json()).collect::<Vec<_>>()})).collect::<Vec<_>>()
     })
@@ -1063,6 +1087,9 @@ pub fn run(args: &Args, rep: &mut Report) {
                 rep.count("C01", &format!("sessions_with_{kd}"), 1);
             }
             rep.count("C01", "files_round_tripped", spec.files.len() as u64);
+            if spec.cache_alias.is_some() {
+                rep.count("C11", "sessions_through_a_second_manager_instance", 1);
+            }
             for p in SESSION_PROPS {
                 if rep.wants_sample(p) && nontrivial {
                     let mut s = wit("sample");
